@@ -412,6 +412,12 @@ class GridSetCurrentArea(Contract):
                 continue
             c, w = c.to_symbolic(), w.to_symbolic()
             g = f["grids"].items[d]
+            cwb, ln = f.get("coordinate_array_with_boundary"), f.get("length")
+            from pyvc import values as Vv
+            out.append(Cl("padded-coordinates-and-box-extent-recorded[dim %d]" % d,
+                          (isinstance(cwb, Seq) and cwb.concrete and len(cwb.items) == self.ndim and cwb.items[d] is g.fields.get("coords_with_boundary")
+                           and isinstance(ln, Seq) and ln.concrete and len(ln.items) == self.ndim) and
+                          (Vv.to_z3(ln.items[d], True) == V(old["end"].items[d]) - V(old["start"].items[d])) if (isinstance(ln, Seq) and ln.concrete and len(ln.items) == self.ndim) else False))
             out += [Cl("reported-count-is-the-number-of-returned-points[dim %d]" % d, V(c.len()) == n, prop=True),
                     Cl("as-many-weights-as-points[dim %d]" % d, V(w.len()) == n, prop=True),
                     Cl("reported-count-is-the-announced-count[dim %d]" % d, n == announced(g, V(old["levelvec"].items[d])), prop=True),
